@@ -443,6 +443,40 @@ func ruleK5(c *Ctx, id string) {
 				}
 			}
 		}
+		// ... and the blocks are put together in that order: if the result is built with append, the bytes read in
+		// a turn go behind what was read before (append(acc, data...), acc being the loop-carried result)
+		for _, sc := range scopesOf(rb) {
+			for _, b := range sc.Fn.Blocks {
+				for _, in := range b.Instrs {
+					cl, isC := in.(*ssa.Call)
+					if !isC {
+						continue
+					}
+					bi, isB := cl.Call.Value.(*ssa.Builtin)
+					if !isB || bi.Name() != "append" || len(cl.Call.Args) != 2 || !reachableFrom(in, in) {
+						continue
+					}
+					// the accumulator: a value that the append's own result flows back into (phi) or a cell
+					acc := stripConv(cl.Call.Args[0])
+					isAcc := false
+					if ph, isP := acc.(*ssa.Phi); isP {
+						for _, e := range ph.Edges {
+							if stripConv(e) == ssa.Value(cl) {
+								isAcc = true
+							}
+						}
+					}
+					if ld, isL := acc.(*ssa.UnOp); isL && ld.Op == token.MUL {
+						for _, st := range cellStores(ld.X) {
+							if stripConv(st.Val) == ssa.Value(cl) {
+								isAcc = true
+							}
+						}
+					}
+					R.Check(isAcc, id, "fstxn.readBitmap|blocks appended in the order read", P.Pos(in.Pos()), "append(result so far, block just read ...)", "first operand is the loop-carried result", "the block just read is put in front of what was read before: on a disk with more than one bitmap block the allocator sees the bitmap blocks in reverse order - it hands out blocks that are in use")
+				}
+			}
+		}
 		R.Check(okAddr, id, "fstxn.readBitmap|block i of the region is read in turn i", P.Pos(rb.Pos()), "the block loaded in a turn of the loop is start + i for i = 0 .. len-1", "address advances with the counter", why+": the allocator is built from copies of one bitmap block (or from a shifted region) - on a disk with more than one bitmap block it refuses free blocks and hands out blocks that are in use or beyond the end of the disk")
 	}
 }
